@@ -1,0 +1,182 @@
+//go:build verif
+
+// C10 no-panic sweep (worker w-c10): thin contracts (implicit safety obligations, frame where stated) for helpers of
+// package syntax that receive user-controlled values. Convention as in rel/verif_contracts_c10.go: `requires x != nil` =
+// well-formedness of receiver/parameters. Read by /verif/engine (govc). Comments only.
+package syntax
+
+// no frame claimed: calls a repo function without contract (engine havocs all state; a frame proof would be vacuous)
+//@ func (ParseContext).compileArrow(pc; ctx, b, name, c)
+//@   tags C10
+//@   fnparam * pure
+//@   requires c != nil
+
+// (not under contract here: getKeyPaths — first pass: 2 of 5 obligations not proved (safe.nil×1, safe.assert×1))
+
+// no frame claimed: the function writes caller-visible state or the frame is beyond the thin contract (frame.HS.syntax.keyOpNode.0, frame.HS.syntax.keyOpNode.1)
+//@ func appendKeyPath(ctx, ops)
+//@   tags C10
+//@   fnparam * pure
+
+//@ func emptyKeyPaths(ctx)
+//@   tags C10
+//@   assigns fresh-only
+//@   fnparam * pure
+
+//@ func popKeyPaths(ctx)
+//@   tags C10
+//@   assigns fresh-only
+//@   fnparam * pure
+
+// (not under contract here: buildKeyPatterns — first pass: 2 of 5 obligations not proved (safe.panic×2))
+
+//@ func withMerging(ctx, status)
+//@   tags C10
+//@   assigns fresh-only
+//@   fnparam * pure
+
+// (not under contract here: isMerging — first pass: 2 of 2 obligations not proved (safe.nil×1, safe.assert×1))
+
+//@ func withDesugaring(ctx, status)
+//@   tags C10
+//@   assigns fresh-only
+//@   fnparam * pure
+
+// (not under contract here: isDesugaring — first pass: 2 of 2 obligations not proved (safe.nil×1, safe.assert×1))
+
+//@ func errMergeSyntacticSugar(scanner)
+//@   tags C10
+//@   assigns fresh-only
+//@   fnparam * pure
+
+// no frame claimed: calls a repo function without contract (engine havocs all state; a frame proof would be vacuous)
+//@ func (ParseContext).compilePostfixAndTouch(pc; ctx, b, c)
+//@   tags C10
+//@   fnparam * pure
+//@   requires c != nil
+
+// (not under contract here: handleAccessScanners — first pass: 2 of 6 obligations not proved (safe.panic×1, safe.nil×1))
+
+// (not under contract here: delimsScanner — first pass: 3 of 7 obligations not proved (safe.nil×2, safe.panic×1))
+
+// (not under contract here: which — first pass: 1 of 2 obligations not proved (safe.panic×1))
+
+//@ func dotUnary(f)
+//@   tags C10
+//@   assigns fresh-only
+//@   fnparam * pure
+//@   requires f != nil
+
+// (not under contract here: createArchive — first pass: 11 of 32 obligations not proved (pre×1, safe.nil×1))
+
+// no frame claimed: calls a repo function without contract (engine havocs all state; a frame proof would be vacuous)
+//@ func writeDictToArchive(d, w, parent)
+//@   tags C10
+//@   fnparam * pure
+//@   requires w != nil
+
+//@ func bytesOrStringAsUTF8(v)
+//@   tags C10
+//@   assigns fresh-only
+//@   fnparam * pure
+//@   requires v != nil
+
+//@ func toDecoderTuple(ctx, e)
+//@   tags C10
+//@   assigns fresh-only
+//@   fnparam * pure
+//@   requires e != nil
+
+// (not under contract here: decode — first pass: 1 of 3 obligations not proved (safe.nil×1))
+
+//@ func newDecodeConfig()
+//@   tags C10
+//@   assigns fresh-only
+//@   fnparam * pure
+
+//@ func newEncodeConfig()
+//@   tags C10
+//@   assigns fresh-only
+//@   fnparam * pure
+
+// (not under contract here: csvDecodeFnBody — first pass: 40 of 71 obligations not proved (safe.nil×12, pre×2))
+
+// (not under contract here: csvEncodeFnBody — first pass: 40 of 53 obligations not proved (safe.nil×4, pre×2, safe.index×2))
+
+//@ func newJSONDecodeConfig()
+//@   tags C10
+//@   assigns fresh-only
+//@   fnparam * pure
+
+//@ func newJSONEncodeConfig()
+//@   tags C10
+//@   assigns fresh-only
+//@   fnparam * pure
+
+// no frame claimed: calls a repo function without contract (engine havocs all state; a frame proof would be vacuous)
+//@ func jsonDecodeFnBody(fn, value, config)
+//@   tags C10
+//@   fnparam * pure
+//@   requires value != nil
+
+// no frame claimed: the function writes caller-visible state or the frame is beyond the thin contract (frame.HS.byte.0@r1, frame.HS.byte.0@r2)
+// no frame claimed: calls a repo function without contract (engine havocs all state; a frame proof would be vacuous)
+//@ func jsonEncodeFnBody(value, config)
+//@   tags C10
+//@   fnparam * pure
+//@   requires value != nil
+
+// no frame claimed: calls a repo function without contract (engine havocs all state; a frame proof would be vacuous)
+//@ func arraiBytesXlsxToArrai(v, sheetIndex, headRow, fn)
+//@   tags C10
+//@   fnparam * pure
+//@   requires v != nil
+
+// no frame claimed: calls a repo function without contract (engine havocs all state; a frame proof would be vacuous)
+//@ func decodeXML(v, config)
+//@   tags C10
+//@   fnparam * pure
+//@   requires v != nil
+
+// (not under contract here: parseXMLConfig — first pass: 2 of 8 obligations not proved (pre×1, safe.nil×1))
+
+//@ func newYAMLDecodeConfig()
+//@   tags C10
+//@   assigns fresh-only
+//@   fnparam * pure
+
+//@ func newYAMLEncodeConfig()
+//@   tags C10
+//@   assigns fresh-only
+//@   fnparam * pure
+
+// no frame claimed: calls a repo function without contract (engine havocs all state; a frame proof would be vacuous)
+//@ func yamlDecodeFnBody(fn, value, config)
+//@   tags C10
+//@   fnparam * pure
+//@   requires value != nil
+
+// no frame claimed: the function writes caller-visible state or the frame is beyond the thin contract (frame.HS.byte.0@r1, frame.HS.byte.0@r2)
+// no frame claimed: calls a repo function without contract (engine havocs all state; a frame proof would be vacuous)
+//@ func yamlEncodeFnBody(value, config)
+//@   tags C10
+//@   fnparam * pure
+//@   requires value != nil
+
+// (not under contract here: parseConfig — first pass: 2 of 8 obligations not proved (pre×2))
+
+// (not under contract here: parseHeader — first pass: 6 of 74 obligations not proved (pre×1, safe.index×1))
+
+//@ func parseURL(urlArg)
+//@   tags C10
+//@   assigns fresh-only
+//@   fnparam * pure
+//@   requires urlArg != nil
+
+// no frame claimed: the function writes caller-visible state or the frame is beyond the thin contract (frame.HS.byte.0@r1)
+//@ func parseBody(bodyArg)
+//@   tags C10
+//@   fnparam * pure
+//@   requires bodyArg != nil
+
+// (not under contract here: formatValue — first pass: 4 of 8 obligations not proved (safe.assert×2, safe.index×1))
